@@ -9,13 +9,17 @@ from pathlib import Path
 from ..core import MachineryError
 from . import c15_impl as I
 
-IMPL_INVS = ["NoStaleValidator", "WellFormed", "NoSharing", "SchemaCoherent", "SchemaRequired", "ExportCorrect",
-             "DefaultsWellFormed", "DefaultsBound"]
+IMPL_INVS = ["NoStaleValidator", "ValidationCurrent", "ValidateMeaning", "WellFormed", "NoSharing", "SchemaCoherent",
+             "SchemaRequired", "ExportCorrect", "DefaultsWellFormed", "DefaultsBound"]
+PYD_INVS = ["NoStaleValidator", "ValidationCurrent", "ValidateMeaning", "WellFormed", "NoSharing", "DefaultsWellFormed",
+            "DefaultsBound"]
 
 
-def impl_cfg(rules, rename_resets, max_ops, invs, prop=True, copy_defaults="rebind"):
+def impl_cfg(rules, rename_resets, max_ops, invs, prop=True, copy_defaults="rebind", cls="json", bake=False,
+             copy_flag="dirty"):
     s = (f'CONSTANTS Names = {{"a", "b"}}\n Types = {{1, 2}}\n Rules = "{rules}"\n CopyDefaults = "{copy_defaults}"\n'
          f" RenameResets = {'TRUE' if rename_resets else 'FALSE'}\n MaxOps = {max_ops}\n"
+         f' Class = "{cls}"\n BakeRequired = {"TRUE" if bake else "FALSE"}\n CopyFlag = "{copy_flag}"\n'
          "SPECIFICATION Spec\nCHECK_DEADLOCK FALSE\nINVARIANT TypeOK\n")
     for i in invs:
         s += f"INVARIANT {i}\n"
@@ -24,37 +28,95 @@ def impl_cfg(rules, rename_resets, max_ops, invs, prop=True, copy_defaults="rebi
     return s
 
 
+def executed(ck, trace):
+    """The refuting trace of a variant of GrammarImpl ends with  fill a view; the edit that the variant gets wrong:
+    the transition tours must have executed that shape, followed by a compared validation, on every grammar class
+    (the refutation says where to look, the tours of Grammar.tla look there)."""
+    import re
+
+    last = [re.match(r"(\w+)(?:\((.*)\))?", a) for a in trace[-2:]]
+    if len(last) < 2 or last[0].group(1) not in ("Validate", "Pickle"):
+        raise MachineryError(f"GrammarImpl: unexpected refuting trace {trace}")
+    if last[1].group(1) == "EditRequired":
+        op = last[1].group(2).split(",")[1].strip('"')
+        shape = f"{last[0].group(1)};EditRequired({op});Validate"
+    elif last[1].group(1) == "Copy":
+        shape = f"{last[0].group(1)};Copy;Validate(copy)"
+    else:
+        raise MachineryError(f"GrammarImpl: unexpected refuting trace {trace}")
+    counts = {}
+    for tag, shapes in ck.extra.get("path_shapes", {}).items():
+        cls = tag.split("/")[0]
+        counts[cls] = counts.get(cls, 0) + shapes.get(shape, 0)
+    if "path_shapes" in ck.extra and not ck.violations:
+        for cls in ("json", "simple", "pydantic"):
+            if not counts.get(cls):
+                raise MachineryError(f"vacuity: the shape {shape} of the refuting trace was not executed on {cls}")
+    return {"tour_shape": shape, "executed_and_compared": counts}
+
+
 def impl_spec(ck):
-    """Specification-level check of the derived state of JSONGrammar (lazily built views, copies)."""
+    """Specification-level check of the derived state of JSONGrammar / PydanticGrammar (lazily built views, copies):
+    the coherent rules satisfy the invariants; each variant of the rules is refuted (independent TLC runs)."""
+    from concurrent.futures import ThreadPoolExecutor
+
     depth = 5 if ck.thorough else 3
-    acts = ("AddTyped", "AddNamed", "AddSchema", "Rename", "Delete", "Unrequire", "SetDefault", "Schema", "Validate",
-            "ToJson", "Pickle", "Copy")
-    r = ck.tlc("GrammarImpl", impl_cfg("coherent", True, depth, IMPL_INVS), workers=4, timeout=900)
-    for a in acts:
-        if r.coverage.get(a, [0, 0])[1] == 0:
-            raise MachineryError(f"vacuity: action {a} of GrammarImpl never taken")
-    out = {}
-    # the catalogued mutant at specification level: rename without re-initialising the dependencies
-    r = ck.tlc("GrammarImpl", impl_cfg("coherent", False, 4, ["NoStaleValidator"], prop=False), workers=1,
-               timeout=600, expect_ok=False, count=False, coverage=False)
-    if r.violated != "NoStaleValidator":
-        raise MachineryError("GrammarImpl: NoStaleValidator is not refuted when rename keeps the validator (vacuous)")
-    out["rename_without_reset"] = {"refutes": r.violated, "trace_length": len(r.counterexample())}
-    # a copy that installs copy(defaults) (bound to the source grammar) instead of re-binding the defaults
-    r = ck.tlc("GrammarImpl", impl_cfg("coherent", True, 4, ["DefaultsWellFormed"], prop=False, copy_defaults="shallow"),
-               workers=1, timeout=600, expect_ok=False, count=False, coverage=False)
-    if r.violated != "DefaultsWellFormed":
-        raise MachineryError("GrammarImpl: DefaultsWellFormed is not refuted when a copy keeps the defaults of the "
-                             "original bound to the original (vacuous)")
-    out["copy_keeps_defaults_owner"] = {"refutes": r.violated, "trace": [a for a, _ in r.counterexample()][1:]}
+    refute = dict(workers=1, timeout=600, expect_ok=False, count=False, coverage=False)
+    runs = {
+        # the coherent rules of the JSON grammar, and the rebuild-flag protocol of PydanticGrammar (the model is
+        # kept and flagged, a copy owns a new model)
+        "coherent-json": (impl_cfg("coherent", True, depth, IMPL_INVS), dict(workers=2, timeout=900, count=False)),
+        "coherent-pydantic": (impl_cfg("coherent", True, depth, PYD_INVS, prop=False, cls="pydantic"),
+                              dict(workers=2, timeout=900, count=False)),
+        # the required names of the moment compiled into the validator, which no edit of the required names drops:
+        # validation after  Validate; EditRequired(remove)  does not follow the current required names
+        "validator_bakes_required": (impl_cfg("coherent", True, 4, ["ValidateMeaning"], prop=False, bake=True), refute),
+        # a copied pydantic grammar that inherits the rebuild flag of its source: the copy of a validated / pickled
+        # grammar validates with its new, empty model
+        "pydantic_copy_inherits_flag": (impl_cfg("coherent", True, 4, ["ValidationCurrent"], prop=False, cls="pydantic",
+                                                 copy_flag="inherit"), refute),
+        # the catalogued mutant at specification level: rename without re-initialising the dependencies
+        "rename_without_reset": (impl_cfg("coherent", False, 4, ["NoStaleValidator"], prop=False), refute),
+        # a copy that installs copy(defaults) (bound to the source grammar) instead of re-binding the defaults
+        "copy_keeps_defaults_owner": (impl_cfg("coherent", True, 4, ["DefaultsWellFormed"], prop=False,
+                                               copy_defaults="shallow"), refute),
+    }
     # the rules of the code as read: which clauses TLC refutes (design-level reproduction of the findings)
-    todo = [("NoSharing", False), ("WellFormed", False), ("ExportCorrect", False), ("SchemaRequired", False),
-            ("SchemaAdds", True)] if ck.thorough else []
-    for inv, is_prop in todo:
-        r = ck.tlc("GrammarImpl", impl_cfg("code", True, 4, [] if is_prop else [inv], prop=is_prop), workers=1,
-                   timeout=600, expect_ok=False, count=False, coverage=False)
-        out[f"code_rules/{inv}"] = {"refuted": bool(r.violated),
-                                    "trace": [a for a, _ in r.counterexample()][1:] if r.violated else None}
+    todo = [("NoSharing", False, "json"), ("WellFormed", False, "json"), ("ExportCorrect", False, "json"),
+            ("SchemaRequired", False, "json"), ("SchemaAdds", True, "json"),
+            ("ValidateMeaning", False, "pydantic")] if ck.thorough else []
+    for inv, is_prop, cls in todo:
+        runs[f"code_rules/{cls}/{inv}"] = (impl_cfg("code", True, 4, [] if is_prop else [inv], prop=is_prop, cls=cls), refute)
+    with ThreadPoolExecutor(4) as pool:
+        res = dict(zip(runs, pool.map(lambda kv: ck.tlc("GrammarImpl", kv[1][0], tag="impl-" + kv[0].replace("/", "-"),
+                                                        **kv[1][1]), runs.items())))
+    for key, acts in (("coherent-json", ("AddTyped", "AddNamed", "AddSchema", "Rename", "Delete", "EditRequired",
+                                        "SetDefault", "Schema", "Validate", "ToJson", "Pickle", "Copy")),
+                      ("coherent-pydantic", ("AddTyped", "AddNamed", "Rename", "Delete", "EditRequired", "Validate",
+                                            "Pickle", "Copy"))):
+        r = res[key]
+        ck.states += r.distinct
+        ck.transitions += r.generated
+        for a in acts:
+            if r.coverage.get(a, [0, 0])[1] == 0:
+                raise MachineryError(f"vacuity: action {a} of GrammarImpl ({key}) never taken")
+
+    def trace_of(r):
+        return [a.split(" line")[0] for a, _ in r.counterexample()][1:]
+
+    out = {}
+    for key, inv in (("validator_bakes_required", "ValidateMeaning"), ("pydantic_copy_inherits_flag", "ValidationCurrent"),
+                     ("rename_without_reset", "NoStaleValidator"), ("copy_keeps_defaults_owner", "DefaultsWellFormed")):
+        r = res[key]
+        if r.violated != inv:
+            raise MachineryError(f"GrammarImpl: {inv} is not refuted by the variant {key} (vacuous)")
+        out[key] = {"refutes": r.violated, "trace": trace_of(r)}
+    for key in ("validator_bakes_required", "pydantic_copy_inherits_flag"):
+        out[key].update(executed(ck, out[key]["trace"]))
+    for key in runs:
+        if key.startswith("code_rules/"):
+            r = res[key]
+            out[key] = {"refuted": bool(r.violated), "trace": trace_of(r) if r.violated else None}
     ck.extra["GrammarImpl"] = out
 
 
